@@ -25,6 +25,10 @@ def gen_cases(tier, seed):
     n = 96 if tier == "quick" else 640
     for i in range(n):
         yield {"kind": "script", "impl": ("sync", "async")[i % 2], "seed": "%d:%d" % (seed, i), "timeout": [0.15, None, 0.1, 0.25][(i // 2) % 4]}
+    # a read that takes exactly what the peer had sent, then the peer pauses: the NEXT read finds nothing and has to raise after its timeout,
+    # however the transport was connected
+    for j in range(8 if tier == "quick" else 48):
+        yield {"kind": "script", "impl": ("sync", "async")[j % 2], "seed": "%d:xf%d" % (seed, j), "timeout": [0.15, 0.1, 0.25, 0.15][(j // 2) % 4], "exactfill": True}
     for j in range(4 if tier == "quick" else 12):
         yield {"kind": "session", "impl": ("sync", "async")[j % 2], "seed": "%d:s%d" % (seed, j), "maxdata": [4096, 65536, 1024 * 1024][j % 3]}
 
@@ -125,15 +129,25 @@ def run_script(case, stats):
     long_pauses = 0
     # the timeout given to connect() need not be the one given to the reads
     connect_timeout = timeout if timeout is not None or rng.random() < 0.5 else 0.15
+    if timeout is not None and rng.random() < 0.3:
+        connect_timeout = None        # connected without a limit, read with one
     # the peer may have written more than this client ever asks for (it is still unread when the client closes)
     junk = scen.blob(case["seed"] + "junk", rng.choice([1, 3000, 20000])) if rng.random() < 0.5 else b""
+    if case.get("exactfill"):
+        connect_timeout = rng.choice([None, None, timeout])
+        n = min(rng.choice([1, 24, 100, 4096]), len(stream) // 2)       # (a pause is observable only before further data)
+        items.append(("send", stream[:n]))
+        items.append(("pause", timeout * 4.0))
+        pos, pauses, first_req = n, 1, n
+    else:
+        first_req = None
     while pos < len(stream):
         n = rng.choice([1, 1, 2, 24, 100, 1460, 8000, 65536])
         items.append(("send", stream[pos:pos + n]))
         pos += n
         if timeout and pauses < 3 and rng.random() < 0.15 and pos < len(stream):
             # (only before further data: a pause after the last fragment is not observable by a reader that already has everything)
-            items.append(("pause", timeout * 2.5))
+            items.append(("pause", timeout * rng.choice([2.5, 4.0])))
             pauses += 1
         elif rng.random() < 0.2:
             items.append(("pause", 0.002))
@@ -167,6 +181,8 @@ def run_script(case, stats):
     stats["resets"] += 1 if rst else 0
     stats["big_outbound"] += 1 if big_out else 0
     reqs = [rng.choice([1, 3, 24, 24, 100, 100, 1000, 4096, 70000]) for _ in range(64)]
+    if first_req:
+        reqs[0] = first_req
     data = bytearray()
     timeouts_seen = []
     second_got = bytearray()
@@ -210,6 +226,7 @@ def run_script(case, stats):
                 viol.append({"mechanism": "empty-read", "detail": "sync bulk_read returned b'' before the peer closed"})
                 break
             record_read(n, d)
+            info["longest_wait"] = max(info.get("longest_wait", 0.0), time.monotonic() - t0)
             data += d
         try:
             for o in outbound:
@@ -273,6 +290,7 @@ def run_script(case, stats):
                     viol.append({"mechanism": "empty-read", "detail": "async bulk_read returned b'' before the peer closed"})
                     break
                 record_read(n, d)
+                info["longest_wait"] = max(info.get("longest_wait", 0.0), time.monotonic() - t0)
                 data.extend(d)
             try:
                 for o in outbound:
@@ -330,6 +348,9 @@ def run_script(case, stats):
         viol.append({"mechanism": "stream-mismatch", "detail": "%s: read %d bytes, peer sent %d; first difference at %d" % (where, len(data), len(stream), k)})
     if timeout is None and timeouts_seen:
         viol.append({"mechanism": "timeout-with-none", "detail": "%s: bulk_read(n, None) raised TcpTimeoutException %d times (first after %.3f s); with no timeout a read must wait for the peer" % (where, len(timeouts_seen), timeouts_seen[0])})
+    if timeout and info.get("longest_wait", 0.0) > 1.8 * timeout + 0.1:
+        # (wall clock: confirmed by a second run of the same script before it counts, see run_case)
+        viol.append({"mechanism": "read-blocked-past-timeout", "detail": "%s: a bulk_read(n, %r) waited %.3f s and then returned data; with nothing to read it has to raise TcpTimeoutException after about %r s" % (where, timeout, info["longest_wait"], timeout)})
     if timeout:
         for dt in timeouts_seen:
             if dt < 0.8 * timeout:
@@ -449,6 +470,11 @@ def run_case(case):
     stats = {"scripts": 0, "reads_checked": 0, "timeouts_observed": 0, "reconnects": 0, "sessions": 0, "double_closes": 0, "bytes_read": 0, "inconclusive_retries": 0, "resets": 0, "big_outbound": 0}
     if case["kind"] == "script":
         sig, viol, sample = run_script(case, stats)
+        if viol and all(v["mechanism"] == "read-blocked-past-timeout" for v in viol):
+            # a wall-clock observation: it counts only if the same script shows it again
+            stats["inconclusive_retries"] += 1
+            sig, viol2, sample = run_script(case, stats)
+            viol = viol2 if any(v["mechanism"] == "read-blocked-past-timeout" for v in viol2) else [v for v in viol2 if v["mechanism"] != "read-blocked-past-timeout"]
     else:
         for attempt in range(2):
             sig, viol, sample, inc = run_session(case, stats)
